@@ -1,19 +1,46 @@
-(* The Rego text fragments (fmt.Sprintf templates, in source order per function) that the models of the
-   generator were transcribed from.  Extracted/Templates.v is regenerated from /repo on every run; the
-   property files prove extracted = reference, so an edit to a template whose meaning a model
-   transcribes breaks a tie lemma and sends the check into its search for a failing input. *)
+(* The Rego text fragments (string literals, in source order per function or file) that the models of the
+   generator were transcribed from, frozen by gen/freeze_templates.py when the models were last read
+   against them.  Extracted/Templates.v is regenerated from /repo on every run; the property files prove
+   extracted = reference, so an edit to a template whose meaning a model transcribes breaks a tie
+   lemma and sends the check into its search for a failing input. *)
 From Coq Require Import List String.
 Import ListNotations.
 Open Scope string_scope.
+Definition ref_path_property : list string := ["%d"; "%s_%d"; "%s_%s"; "init_%s = data.sourceNode"; "init_%s"; "search_subjects[%s] with data.predicate as ""%s"" with data.object as %s"; "tmp_%s = nested_nodes with data.nodes as %s[""%s""]"; "%s = tmp_%s[_][_]"; "nodes_tmp = object.get(%s,""%s"",[])"; "nodes_tmp2 = nodes_array with data.nodes as nodes_tmp"; "%s = nodes_tmp2[_]"].
+Definition ref_path_aggregate : list string := ["nodes = %s"; "path_set_rule"; "%s[nodes] {"; "} {"; "  "; "}"; "path_array_rule"; "%s = [ nodes | "; "} {"; "  "; "]"].
+Definition ref_atom_count : list string := [">="; "<="; "=="; "propValues"; "%s_elem"; "#  querying path: "; "%s = %s with data.sourceNode as %s"; "%s = %s[_]"; "count(%s) %s %d"; "not count(%s) %s %d"; """negated"":%t,""condition"":""%s"",""actual"": count(%s),""expected"": %d"].
+Definition ref_atom_pattern : list string := ["#  querying path: "; "%s_node"; "%s_array = %s with data.sourceNode as %s"; "%s = %s_array[_]"; "regex.match(`%s`,%s)"; "not regex.match(`%s`,%s)"; "pattern"; """negated"":%t,""expected"": %s,""actual"": %s"].
+Definition ref_atom_contains_all : list string := ["%s_check"; "containsAll"; "#  querying path: "; "%s_array = %s with data.sourceNode as %s"; "count(%s_array) != 0 # validation applies if property was defined"; "%s_string_set = { mapped |
+"; "    original := %s_array[_]
+"; "    mapped := as_string(original)
+}
+"; "%s = { ""%s""}"; ""","""; "count(%s - %s_string_set) == 0"; "count(%s - %s_string_set) != 0"; "%s_quoted = [concat("""", [""\"""", res, ""\""""]) |  res := %s_string_set[_]]"; "%s_string = concat("""", [""["", concat("", "",%s_quoted), ""]""])"; """negated"":%t,""actual"": %s,""expected"": ""%s"""; "%s_string"].
+Definition ref_atom_in : list string := ["inValues"; "%s_check"; "#  querying path: "; "%s_array = %s with data.sourceNode as %s"; "%s_scalar = %s_array[_]"; "%s = as_string(%s_scalar)"; "%s = { ""%s""}"; ""","""; "%s[%s]"; "not %s[%s]"; """negated"":%t,""actual"": %s,""expected"": ""%s"""; """"; "'"].
+Definition ref_atom_contains_some : list string := ["%s_check"; "containsSome"; "#  querying path: "; "%s_array = %s with data.sourceNode as %s"; "count(%s_array) != 0 # validation applies if property was defined"; "%s_string_set = { mapped |
+"; "    original := %s_array[_]
+"; "    mapped := as_string(original)
+}
+"; "%s = { ""%s""}"; ""","""; "count(%s - %s_string_set) != count(%s)"; "count(%s - %s_string_set) == count(%s)"; "%s_quoted = [concat("""", [""\"""", res, ""\""""]) |  res := %s_string_set[_]]"; "%s_string = concat("""", [""["", concat("", "",%s_quoted), ""]""])"; """negated"":%t,""actual"": %s,""expected"": ""%s"""; "%s_string"].
+Definition ref_atom_numeric : list string := ["minimumInclusive"; ">="; "minimumExclusive"; ">"; "maximumExclusive"; "<"; "maximumInclusive"; "<="; "cannot generate unknown numeric constraint: %v"; "#  querying path: "; "numeric_comparison"; "%s_elem = %s with data.sourceNode as %s"; "%s = %s_elem[_]"; "%s %s %d"; "%s %s %f"; "not %s %s %d"; "not %s %s %f"; """negated"":%t,""condition"":""%s"",""expected"":%s,""actual"":%s"].
+Definition ref_atom_property_comparison : list string := ["#  querying path: "; "%sA"; "%ss = %s with data.sourceNode as %s"; "#  querying path: "; "%sB"; "%ss = %s with data.sourceNode as %s"; "%s = %ss[_]"; "%s = %ss[_]"; "%s %s %s"; "not %s %s %s"; """negated"":%t, ""condition"":""%s"",""expected"":%s, ""actual"":%s, ""altPath"": ""%s"""].
+Definition ref_atom_datatype : list string := ["#  querying path: "; "datatype_check"; "%s_elem = %s with data.sourceNode as %s"; "%s = %s_elem[_]"; "check_datatype(%s,""%s"")"; "not check_datatype(%s,""%s"")"; "datatype"; """negated"":%t,""actual"": %s,""expected"": ""%s"""].
+Definition ref_atom_unique_values : list string := ["#  querying path: "; "array_values"; "duplicates"; "%s = %s with data.sourceNode as %s"; "
+  %s = { duplicate |
+    array_value = %s[_]
+    indices_for_value := [ idx | array_value == %s[idx]]
+    count(indices_for_value) > 1
+    duplicate = array_value
+  }
+"; "count(%s) > 0"; "not count(%s) > 0"; "uniqueValues"; """negated"":%t"].
+Definition ref_nested : list string := ["%ss"; "#  querying path: "; "%s = %s with data.sourceNode as %s"; "nested"; ""].
+Definition ref_expression : list string := ["nested expressions cannot be generated as a top level expression"; "expected expression or top-level expression, got %v"; "nested expressions not supported yet"; "expected expression or top-level expression, got %v"; "%s_errorAcc"; "%s0 = []"; "%s = %s%d"; "# let's accumulate results"; "%s_error_node_variables_agg"; " | "; "%s = %s"; ""; ""; "count(%s) == 0"; "count(%s) > 0"; "nested"; """negated"":%t, ""failedNodes"":count(%s), ""successfulNodes"":(count(%s)-count(%s)),""subResult"": %s"; "count(%s) - count(%s) %s"; "not count(%s) - count(%s) %s"; """negated"":%t, ""failedNodes"":count(%s), ""successfulNodes"":(count(%s)-count(%s)), ""cardinality"":%d, ""subResult"": %s"; "%s"; "%s_br_%d"; "%s_br_%d_errors"; "%s_error"; "%s_inner_error"; "%s = [ %s|"; "  %s = %s[_]"; "error in nested nodes under %s"; "nested"; "  %s = [%s[""@id""],%s]"; "]"; "%s = { nodeId | n = %s[_]; nodeId = n[0] }"; "%s_errors = [ node | n = %s[_]; node = n[1] ]"; "%s%d = array.concat(%s%d,%s_errors)"; "
+"; "
 
-(* internal/generator/path.go traverseRegularProperty: forward step with/without fetching, inverse step *)
-Definition ref_path_property : list string :=
-  ["%d"; "%s_%d"; "%s_%s"; "init_%s = data.sourceNode"; "init_%s";
-   "search_subjects[%s] with data.predicate as ""%s"" with data.object as %s";
-   "tmp_%s = nested_nodes with data.nodes as %s[""%s""]"; "%s = tmp_%s[_][_]";
-   "nodes_tmp = object.get(%s,""%s"",[])"; "nodes_tmp2 = nodes_array with data.nodes as nodes_tmp"; "%s = nodes_tmp2[_]"].
-(* traversePath / aggregateResultsIntoSet / aggregateResultsIntoArray: one clause per alternative, union *)
-Definition ref_path_aggregate : list string :=
-  ["nodes = %s"; "path_set_rule"; "%s[nodes] {"; "} {"; "  "; "}"; "path_array_rule"; "%s = [ nodes | "; "} {"; "  "; "]"].
-(* the preamble (nodes_array, nested_nodes, find, search_subjects, target_class, error, trace, location ...) *)
+"; "%s[matches] {"; "  "; "matches"; "}"; "
+"; "
+
+"; "# Path rules"; "# Constraint rules"; "
+
+"; "_result_%d"; "  %s := trace(""%s"",""%s"",%s,%s)"; "$message"; "$message"; "message"; "  "; "msg_var_%d"; "  %s := object.get(%s, ""%s"", ""null"")"; "  message_vars := [%s]"; ","; "  message := sprintf(""%s"", message_vars)"; "  message := ""%s"""; "  %s := error(""%s"",%s, message ,[%s])"; ","; "
+"; "\n"; """"; "'"].
 Definition ref_preamble_sha256 : string := "9cc3607a66284b61b0aec492dfedbd7b302ea5e6abae9eece6426f4e31ed04ad".
